@@ -113,6 +113,11 @@ func (fc *funcCtx) heapLoad(st *State, t types.Type, ref, idx string) Value {
 		}
 		// four consecutive leaves form a slice header
 		get := func(k int) string { return app("select", app("select", fc.heap(st, ls[i+k].key), ref), idx) }
+		// a slice header found in storage was created earlier: it points below the allocation counter,
+		// and a header found in storage that predates this call points to storage that predates it
+		st.assume(app("<", get(0), plus(st.allocBase, smtInt(int64(st.allocOff)))))
+		st.assume(implies(app("<", ref, st.entryBase), app("<", get(0), st.entryBase)))
+		st.assume(and(app("<=", "0", get(1)), app("<=", "0", get(2)), app("<=", get(2), get(3)), app("<=", "0", get(0))))
 		v = setPath(v, l.path, SliceV{Ref: get(0), Off: get(1), Len: get(2), Cap: get(3), Elem: l.elem})
 		i += 3
 	}
